@@ -20,7 +20,8 @@ def _worker(args):
         for p in res["points"]:
             out.append({"k": p["k"], "op": p["op"], "killed": p["killed"], "replaced": p["replaced"],
                         "gallina": clikill.point_gallina(case, res, p), "problems": clikill.final_verdict(res, p),
-                        "window": clikill.in_window(p)})
+                        "window": clikill.in_window(p), "readd": clikill.bus_has_readd(res) and case["p_fail"] > 0,
+                        "ref_healthy": clikill.reference_is_healthy(res)})
         return {"n_ops": res["n_ops"], "points": out, "ki": res["ki"]}, None
     except Exception:
         return None, traceback.format_exc()
@@ -62,7 +63,7 @@ def run(ctx):
         raise RuntimeError(f"kill driver error on case {errs[0][0]}:\n{errs[0][1]}")
     gal, owner = [], []
     hist = {"kill_points": 0, "handler_kills": 0, "file_op_kills": 0, "inside_checkpoint_window": 0,
-            "window_points_diverging": 0, "ops_per_iteration_max": 0}
+            "window_points_diverging": 0, "ops_per_iteration_max": 0, "points_with_unhealthy_reference": 0}
     for i, (r, _) in enumerate(res_b):
         hist["ops_per_iteration_max"] = max(hist["ops_per_iteration_max"], r["n_ops"])
         for p in r["points"]:
@@ -72,12 +73,14 @@ def run(ctx):
             hist["handler_kills"] += p["op"].startswith("handler")
             hist["file_op_kills"] += not p["op"].startswith("handler")
             hist["inside_checkpoint_window"] += p["window"]
+            hist["points_with_unhealthy_reference"] += not p["ref_healthy"]
     failing_b = srvprops.coq_eval(ctx, "c11b", gal, f="corr_kcase", g="corr_kcase", require="Corr.RunKill", typ="kcase",
                                   checker="check_kcases", shard=12)
     for j, (i, p) in enumerate(owner):
         rep = {"replay_kind": "kill_point", "case": common.enc(cases_b[i]), "k": p["k"], "op": p["op"]}
         if p["problems"]:
-            sig = "F7-killed-inside-the-checkpoint" if p["window"] else None
+            sig = "F7-killed-inside-the-checkpoint" if p["window"] else \
+                ("F5-readd-while-removal-queued" if p["readd"] else None)
             hist["window_points_diverging"] += bool(p["window"])
             violations.append({"sig": sig, "what": f"killed after op {p['k']} ({p['op']}), restarted and drained: " + "; ".join(p["problems"]) + f" (case {i})", **rep})
         elif j in failing_b:
